@@ -4,7 +4,8 @@
    every set of direct and pipelined calls and every caller order) and every reachable
    configuration, i.e. every schedule of the threads of coq/Server/Server.v. *)
 From CV Require Import Server.Server Server.ServerProofs Server.ServerSteps Server.ServerStart Server.ServerTheorems
-  Server.ServerOnce Server.ServerExamples.
+  Server.ServerOnce Server.ServerExamples Server.AqInv Server.AqTheorems Server.ServerOrder Server.OrderTheorems
+  Server.OnceTheorems Server.Live Server.NoStuck Server.Measure.
 From Coq Require Import List Arith Bool.
 Import ListNotations.
 
@@ -54,27 +55,140 @@ Theorem C12_shutdown_cancels : forall P c c', reachable P c -> step P c TShutdow
 Proof. exact shutdown_cancels_lemma. Qed.
 Print Assumptions C12_shutdown_cancels.
 
-(* each_call_once, proved part: a DIRECT call (Server.Send / Server.Recv) never completes twice,
-   has completed exactly once from the moment it is rejected by start or its goroutine has
-   passed Returner.Return, and in particular once its Send/Recv has returned and its goroutine
-   has terminated.
-   Missing for the full statement (hence _partial): the same for pipelined calls (their
-   completions go through the answerQueue / returnEmbargoer; checked by the correspondence
-   run only), and liveness (every call eventually reaches that stage: no_stuck, not proved). *)
-Theorem C12_each_call_once_partial : forall P c x, reachable P c -> p_kind P x = Direct ->
-  length (compl c x) <= 1 /\ (finished_direct c x = true -> length (compl c x) = 1) /\
-  (finished_direct c x = false -> compl c x = []).
-Proof. exact direct_once_lemma. Qed.
-Print Assumptions C12_each_call_once_partial.
+(* gate, same-caller half: [before P i j] = i was issued before j by the same caller.
+   A call is entered only after all earlier calls of its caller have returned from
+   Send/Recv/PipelineRecv; so when j's implementation has been started every earlier direct call
+   i of the same caller was rejected or has acknowledged / returned; and i's implementation can
+   only start while j has not even been entered (calls are seen in the order they were made). *)
+Theorem C12_program_order : forall P c i j, reachable P c -> before P i j -> entered P c j ->
+  call_returned P c i = true.
+Proof. exact program_order_lemma. Qed.
+Print Assumptions C12_program_order.
+
+Theorem C12_gate_same_caller : forall P c i j, reachable P c -> before P i j ->
+  p_kind P i = Direct -> p_kind P j = Direct -> ipc c j <> INone ->
+  spc c i = SDone /\ ipc c i <> IRun.
+Proof. exact gate_same_caller_lemma. Qed.
+Print Assumptions C12_gate_same_caller.
+
+Theorem C12_seen_in_order : forall P c t c' i j, reachable P c -> before P i j -> p_kind P i = Direct ->
+  step P c t = Some c' -> ipc c i = INone -> ipc c' i <> INone -> ~ entered P c j.
+Proof. exact seen_in_order_lemma. Qed.
+Print Assumptions C12_seen_in_order.
+
+(* each_call_once (safety): in every reachable configuration every call - direct or pipelined -
+   has had its Returner.Return called at most once, and exactly once iff it is at or past the stage
+   [finished] (rejected by start / goroutine past Return / pipelined call in PDone). That every
+   call reaches that stage is liveness: see no_stuck below. *)
+Theorem C12_each_call_once : forall P c x, reachable P c ->
+  length (compl c x) <= 1 /\ (finished P c x = true <-> length (compl c x) = 1).
+Proof. exact each_call_once_lemma. Qed.
+Print Assumptions C12_each_call_once.
 
 Theorem C12_direct_done_once : forall P c x, reachable P c -> p_kind P x = Direct ->
   spc c x = SDone -> (ipc c x = INone \/ ipc c x = IDone) -> length (compl c x) = 1.
 Proof. exact direct_done_once_lemma. Qed.
 Print Assumptions C12_direct_done_once.
 
-(* queue_order and no_stuck are NOT proved (no theorem is stated for them here); the model's
-   behaviour for them is exercised by the correspondence run (the harness checks queue order,
-   delivery target and absence of stuck histories on the implementation's own event log). *)
+(* queue_order: [enqs a tr] = the calls queued on answer a in the order they were queued,
+   [procs a tr] = the queue entries processed by a's fulfill/reject in processing order (both
+   projections of the event trace). The processed calls are always a prefix of the queued ones,
+   and all of them once the drain loop has ended; processing an entry delivers it (or fails it with
+   the answer's error / the error of the queued call it was pipelined on); a call that arrives while
+   the queue is draining is passed through only after the whole queue has been processed. *)
+Theorem C12_queue_order_prefix : forall P c a, reachable P c ->
+  procs a (trace c) = firstn (qidx (aq_ph c a) (length (aq_q c a))) (enqs a (trace c)).
+Proof. exact queue_order_prefix_lemma. Qed.
+Print Assumptions C12_queue_order_prefix.
+
+Theorem C12_queue_order_complete : forall P c a, reachable P c -> aq_ph c a = ADrained ->
+  procs a (trace c) = enqs a (trace c).
+Proof. exact queue_order_complete_lemma. Qed.
+Print Assumptions C12_queue_order_complete.
+
+Theorem C12_queue_process_step : forall P c a c' k p, reachable P c -> step P c (TImpl a) = Some c' ->
+  ipc c a = IDrain -> aq_ph c a = ADraining k -> nth_error (aq_q c a) k = Some p ->
+  ppc c p = PQueued /\ compl c p = [] /\
+  procs a (trace c') = procs a (trace c) ++ [p] /\
+  if ierr c a then ppc c' p = PDone /\ compl c' p = [CErr a]
+  else (ppc c' p = PDelivered /\ exists d, hd_error (trace c') = Some (EvDeliver p d))
+       \/ (ppc c' p = PEmbRet /\ exists o, tret c' p = TErr o).
+Proof. exact process_step_lemma. Qed.
+Print Assumptions C12_queue_process_step.
+
+Theorem C12_passthrough_after_queue : forall P c p c', reachable P c -> step P c (TPipe p) = Some c' ->
+  ppc c p = PWaitReady ->
+  if ierr c (proot c p) then ppc c' p = PDone /\ hd_error (compl c' p) = Some (CErr (proot c p))
+  else aq_ph c (proot c p) = ADrained /\ procs (proot c p) (trace c) = enqs (proot c p) (trace c).
+Proof. exact passthrough_after_queue_lemma. Qed.
+Print Assumptions C12_passthrough_after_queue.
+
+(* queue_order also covers calls that arrive DURING the drain - including while the drain loop is
+   blocked inside a target that has not acknowledged the delivery of an earlier entry
+   (ADrainWait): such a call is neither queued nor delivered, it waits (PWaitReady) and by
+   C12_passthrough_after_queue it is passed through only after every queued call was processed *)
+Theorem C12_arrival_during_drain : forall P c p c' on a b, step P c (TPipe p) = Some c' ->
+  p_kind P p = Pipe on -> ppc c p = PInit -> pipe_target P c on = Some (a, b) -> aq_ph c a <> AQueueing ->
+  ppc c' p = PWaitReady /\ proot c' p = a /\ trace c' = EvIssue p :: trace c.
+Proof. exact arrival_during_drain_lemma. Qed.
+Print Assumptions C12_arrival_during_drain.
+
+Example C12_mid_drain_blocked :
+  let c := run ex_params_mid (init ex_params_mid) ex_sched_mid in
+  aq_ph c 0 = ADrainWait 1 /\ ppc c 1 = PDelivered /\ ppc c 2 = PQueued /\ ppc c 3 = PWaitReady /\
+  step ex_params_mid c (TPipe 3) = None /\ step ex_params_mid c (TImpl 0) = None.
+Proof. exact mid_drain_blocked. Qed.
+
+(* no_stuck (deadlock freedom), for every policy with MaxConcurrentCalls >= 1 (New guarantees it):
+   in every reachable configuration in which some thread has begun and not finished (a start
+   goroutine, an implementation goroutine, a pipelined call, Shutdown) either a step of the
+   library's own code is enabled, or the application holds the ball: a method implementation is
+   executing (possibly un-acked), a delivered pipelined call has not been returned by the
+   capability it was delivered to, or the drain loop is blocked in a target that has not acknowledged
+   delivery - and then that application step is enabled.
+   Pipelined calls are delivered to capabilities outside the server (see docs: a result that
+   contains the server's own capability is outside the model). *)
+Theorem C12_no_stuck : forall P c, 1 <= p_max P -> reachable P c -> live c ->
+  lib_enabled P c \/ app_pending c.
+Proof. exact no_stuck_lemma. Qed.
+Print Assumptions C12_no_stuck.
+
+Theorem C12_app_can_move : forall P c, app_pending c ->
+  exists t, (exists x e, t = TRet x e \/ t = TTargetRet x e \/ t = TDrainAck x) /\ step P c t <> None.
+Proof. exact app_can_move_lemma. Qed.
+Print Assumptions C12_app_can_move.
+
+(* termination measures: each thread's own steps strictly decrease its measure (the panic outcome
+   is excluded by hypothesis here) *)
+Theorem C12_impl_measure : forall P c x c', invA P c -> step P c (TImpl x) = Some c' ->
+  impl_measure c' x < impl_measure c x.
+Proof. exact impl_measure_lemma. Qed.
+Print Assumptions C12_impl_measure.
+
+Theorem C12_pipe_measure : forall P c p c', panicked c' = false ->
+  (step P c (TPipe p) = Some c' \/ step P c (TPipeCtx p) = Some c') ->
+  pipe_measure c' p < pipe_measure c p.
+Proof. exact pipe_measure_lemma. Qed.
+Print Assumptions C12_pipe_measure.
+
+Theorem C12_shutdown_measure : forall P c c', panicked c' = false -> step P c TShutdown = Some c' ->
+  shut_measure c' < shut_measure c.
+Proof. exact shut_measure_lemma. Qed.
+Print Assumptions C12_shutdown_measure.
+
+(* partial: Server.start has a wait loop on the gate. Every own step decreases the measure except a
+   re-wait: the goroutine was woken by the release of the gate it waited for and finds the gate
+   taken by another call. Missing for a full termination measure: a bound on the number of
+   re-waits (each call takes the gate at most once, so it is bounded by the number of competing
+   calls; under an unfair scheduler with unboundedly many competing callers a waiter can starve -
+   this is the behaviour of the Go code, which wakes all waiters and lets them race for srv.mu). *)
+Theorem C12_start_measure_partial : forall P c x c', panicked c' = false ->
+  (step P c (TStart x) = Some c' \/ step P c (TStartCtx x) = Some c') ->
+  start_measure c' x < start_measure c x
+  \/ (exists h h', spc c x = SWaitGate h /\ spc c' x = SWaitGate h' /\
+                   gate_rel c h = true /\ starting c = Some h').
+Proof. exact start_measure_lemma. Qed.
+Print Assumptions C12_start_measure_partial.
 
 (* non-vacuity: the cap is reached, Shutdown waits for a running call; and the pre-fix variant of
    queueCaller.PipelineRecv (p_fixed = false) delivers to the wrong answer *)
@@ -90,3 +204,11 @@ Proof. exact basis_refuted. Qed.
 Example C12_basis_fixed :
   hd_error (trace (run (ex_params true) (init (ex_params true)) ex_sched)) = Some (EvDeliver 2 (DFwd 1)).
 Proof. exact basis_fixed. Qed.
+
+(* known finding (self-pipelining deadlock) on the model: the nested start of the delivery is
+   blocked on full while the goroutine that would free the slot is the one executing it *)
+Example C12_self_pipe_blocked :
+  let c := run ex_params_self (init ex_params_self) ex_sched_self in
+  ipc c 0 = IDrain /\ ongoing c = [Some 0] /\ spc c 2 = SWaitFull /\ full c = Some 2 /\
+  step ex_params_self c (TStart 2) = None /\ step ex_params_self c (TStartCtx 2) = None.
+Proof. exact self_pipe_blocked. Qed.
